@@ -39,6 +39,17 @@ class Prop:
         return True
 
     default_mode = None
+    spec_is_oracle = False   # the model side is the property's specification: a disagreement is a failing input
+
+    def agree(self, batch, name, lines, mout, io):
+        """None if the model/spec output and the implementation output agree, else a description"""
+        mo = mout.get(name)
+        if mo == io:
+            return None
+        mo = mo or ["MISSING"]
+        k = next((j for j, (x, y) in enumerate(zip(mo, io)) if x != y), min(len(mo), len(io)))
+        return "first difference at line %d (%s): model %r, implementation %r" % (
+            k + 1, lines[k] if k < len(lines) else "?", mo[k] if k < len(mo) else None, io[k] if k < len(io) else None)
 
     def corpus_mode(self, filename):
         """tool mode of a corpus file: '<mode>__name.ops' or the property's default"""
@@ -115,14 +126,18 @@ def run_property(prop, tier, seed):
                 digests.add(dg)
                 if prop.nontrivial(b, name, lines, io):
                     nontrivial += 1
+            why = None
             if b.compare:
-                if mout.get(name) == io:
+                dis = prop.agree(b, name, lines, mout, io)
+                if dis is None:
                     traces_validated += 1
                 else:
                     nbad += 1
-                    if corr_fail is None:
+                    if prop.spec_is_oracle:
+                        why = "the implementation's observations differ from the Sodium semantics: " + dis
+                    elif corr_fail is None:
                         corr_fail = (b, name, lines, mout.get(name, ["MISSING"]), io)
-            why = prop.oracle(b, name, lines, io)
+            why = why or prop.oracle(b, name, lines, io)
             if why:
                 cls = prop.known_class(b, name, lines, io, why)
                 if cls and (pid, cls) in listed:
@@ -141,9 +156,21 @@ def run_property(prop, tier, seed):
     if oracle_fail is not None:
         b, name, lines, io, why = oracle_fail
 
-        def still(cand):
+        def judge(cand):
             o = C.run_sharded(C.IMPL_RUN, b.mode, [("s", cand)], 120, 1).get("s", ["MISSING"])
-            return prop.oracle(b, "s", cand, o) is not None
+            w = None
+            if prop.spec_is_oracle and b.compare:
+                m = C.run_sharded(C.MODEL_RUN, b.mode, [("s", cand)], 120, 1)
+                if any(("illegal" in x or "CRASH" in x) for v in m.values() for x in v):
+                    return None      # the shrunk script is no longer a legal program
+                w = prop.agree(b, "s", cand, m, o)
+            w = w or prop.oracle(b, "s", cand, o)
+            if w and prop.known_class(b, "s", cand, o, w) != prop.known_class(b, name, lines, io, why):
+                return None
+            return w
+
+        def still(cand):
+            return judge(cand) is not None
         small = C.shrink(lines, still)
         o2 = C.run_sharded(C.IMPL_RUN, b.mode, [("s", small)], 120, 1).get("s", ["MISSING"])
         m2 = C.run_sharded(C.MODEL_RUN, b.mode, [("s", small)], 120, 1).get("s", ["MISSING"]) if b.compare else []
@@ -154,7 +181,7 @@ def run_property(prop, tier, seed):
             "expected.log": "\n".join(m2) + "\n",
             "actual.log": "\n".join(o2) + "\n",
             "why.txt": "property oracle on the implementation's observations: %s\n(original script %s in batch %s)\n"
-                       % (prop.oracle(b, "s", small, o2) or why, name, b.label)})
+                       % (judge(small) or why, name, b.label)})
         print("VIOLATION property=%s replay=%s" % (pid, d))
         rc = 1
     elif corr_fail is not None or not proof_ok:
@@ -237,7 +264,8 @@ def replay(prop, path):
         if why:
             print(" ORACLE: property fails:", why)
             rc = 1
-        if m.get(name) != i.get(name):
-            print(" model and implementation disagree")
+        dis = prop.agree(b, name, lines, m, i.get(name, []))
+        if dis:
+            print(" model/spec and implementation disagree:", dis)
             rc = 1
     return rc
